@@ -250,7 +250,8 @@ class JoltDistance(PairScenario):
         VA, VB = SA.world_vertices(MA), SB.world_vertices(MB)
         ex = [DOT(w, SUB(v, pa)) >= 0 for v in VA] + [DOT(w, SUB(v, pb)) <= 0 for v in VB]
         tl = [DOT(w, SUB(v, pa)) >= -eps for v in VA] + [DOT(w, SUB(v, pb)) <= eps for v in VB]
-        ob.require("optimal", exact=AND(*ex), tol=AND(*tl))
+        # below the tolerance the claim |d - d_true| <= t follows from feasibility alone
+        ob.require("optimal", exact=AND(*ex), tol=OR(d <= t, AND(*tl)))
         ob.require("support_evals_le_1000", exact=(self._n_support <= 1000))
 
 
@@ -335,3 +336,147 @@ class BoolTest(PairScenario):
             sep = AND(NORM2(n) <= 1.0, AND(*[DOT(n, v) >= s + delta for v in VA]), AND(*[DOT(n, v) <= s for v in VB]))
             ob.require("no_report_of_clear_gap", exact=NOT(sep))
         ob.require("support_evals_le_1000", exact=(self._n_support <= 1000))
+
+
+# ---------------------------------------------------------------- C09: alternative distance algorithms
+class AltDistance(PairScenario):
+    """Distance value of an alternative algorithm against a certificate: the Jolt query on the
+    same path supplies candidate closest points, whose membership and optimality are PROVED
+    here (so the reference distance is certified, not trusted)."""
+    tol_k = 1e-3
+
+    def call(self, cx, inp):
+        import distance3d.gjk as G
+        a, b = self.colliders(cx, inp)
+        algo = self.algo
+        if algo == "nesterov":
+            r = G.gjk_nesterov_accelerated_distance(a, b)
+        elif algo == "nesterov_acc":
+            r = max(G.gjk_nesterov_accelerated(a, b, use_nesterov_acceleration=True)[1], 0.0)
+        elif algo == "prim":
+            r = G.gjk_nesterov_accelerated_primitives_distance(a, b)
+        elif algo == "prim_acc":
+            r = max(G.gjk_nesterov_accelerated_primitives(a, b, use_nesterov_acceleration=True)[1], 0.0)
+        else:
+            raise KeyError(algo)
+        a2, b2 = self.colliders(cx, inp)
+        d, pa, pb, _ = G.gjk_distance_jolt(a2, b2, max_distance_squared=1e300)
+        return [r, d, pa, pb]
+
+    def observable(self, out):
+        return [out[0], out[1]]
+
+    def check(self, cx, inp, out, ob):
+        (SA, MA), (SB, MB) = self.sets(inp)
+        r, d, pa, pb = out
+        L = self.L
+        t = self.tol_k * L
+        pa, pb = list(pa), list(pb)
+        w = SUB(pa, pb)
+        ww = NORM2(w)
+        tc = 1e-5 * L
+        # certificate for the reference distance d
+        VA, VB = SA.world_vertices(MA), SB.world_vertices(MB)
+        eps = 0.5 * tc * d
+        cert_ex = AND(SA.member(MA, pa, 0.0), SB.member(MB, pb, 0.0), ww == d * d, d >= 0,
+                      AND(*[DOT(w, SUB(v, pa)) >= 0 for v in VA]), AND(*[DOT(w, SUB(v, pb)) <= 0 for v in VB]))
+        cert_tl = AND(SA.member(MA, pa, tc), SB.member(MB, pb, tc), d >= 0,
+                      ww <= (d + tc) * (d + tc), OR(d <= tc, ww >= (d - tc) * (d - tc)),
+                      OR(d <= tc, AND(AND(*[DOT(w, SUB(v, pa)) >= -eps for v in VA]),
+                                      AND(*[DOT(w, SUB(v, pb)) <= eps for v in VB]))))
+        ob.require("reference_certified", exact=cert_ex, tol=cert_tl)
+        ob.require("value_matches_true_distance", exact=(r == d), tol=close(r, d, t))
+
+
+class OriginalDistance(JoltDistance):
+    algo = "original"
+    tol_k = 1e-3
+
+    def call(self, cx, inp):
+        import distance3d.gjk as G
+        a, b = self.colliders(cx, inp)
+        cnt = self.count_supports(a, b)
+        res = G.gjk_distance_original(a, b)
+        self._n_support = cnt["n"]
+        return [res[0], res[1], res[2]]
+
+
+class JoltIterations(PairScenario):
+    def call(self, cx, inp):
+        import distance3d.gjk._gjk_jolt as J
+        a, b = self.colliders(cx, inp)
+        cnt = self.count_supports(a, b)
+        J.gjk_distance_jolt(a, b)
+        n = cnt["n"]
+        a2, b2 = self.colliders(cx, inp)
+        it = J.gjk_distance_jolt_iterations(a2, b2)
+        return [int(it), int(n)]
+
+    def check(self, cx, inp, out, ob):
+        ob.require("iterations_helper_follows_same_path", exact=(2 * out[0] == out[1]))
+
+
+ALL_TYPES = [
+    {"type": "sphere", "radius": 0.5}, {"type": "capsule", "radius": 0.25, "height": 1.0},
+    {"type": "box", "size": [1.0, 0.5, 2.0]}, {"type": "ellipsoid", "radii": [1.0, 0.5, 2.0]},
+    {"type": "cylinder", "radius": 0.5, "length": 2.0}, {"type": "cone", "radius": 0.5, "height": 2.0},
+    {"type": "disk", "radius": 1.0}, {"type": "ellipse", "radii": [1.0, 0.5]},
+    {"type": "mesh", "mesh": "tetra"}, {"type": "hull", "mesh": "octa"},
+    {"type": "margin", "margin": 0.25, "inner": {"type": "box", "size": [1.0, 1.0, 1.0]}},
+]
+
+
+class NesterovFirstBound(Scenario):
+    """One-step dispatch contract of the Nesterov modules for EVERY ordered pair of collider
+    types: with upper_bound = -1e300 the real function returns after one support evaluation
+    with distance = omega - inflation, which must equal the separating-axis bound
+    -(h_A(-D) + h_B(D)) along its initial ray D (inflation bookkeeping included)."""
+    timeout_ms = 10000
+    budget_s = 60
+    max_decisions = 200
+
+    def __init__(self, prop, args):
+        self.prop = prop
+        self.args = args
+        self.SA = SH.Shape(args["a"])
+        self.SB = SH.Shape(args["b"])
+        self.params = [("a", -3.0, 3.0)]
+        self.L = max(1.0, self.SA.size_scale(), self.SB.size_scale(), 4.0)
+
+    def build(self, cx):
+        from harness import coll_common as CC
+        c, s = PR.half_angle(cx.P["a"])
+        Rs = PR.rot_about_axis(self.args["axis"], c, s)
+        RA = PR.matmul3(Rs, CC.R0[self.args["r0a"]])
+        RB = PR.matmul3(Rs, CC.R0[self.args["r0b"]])
+        tA = SH.matvec(Rs, self.args["ta"])
+        tB = SH.matvec(Rs, self.args["tb"])
+        return {"RA": RA, "tA": tA, "RB": RB, "tB": tB}
+
+    def call(self, cx, inp):
+        import distance3d.colliders as C
+        import distance3d.gjk as G
+        a = self.SA.make(C, cx, inp["RA"], inp["tA"])
+        b = self.SB.make(C, cx, inp["RB"], inp["tB"])
+        f = G.gjk_nesterov_accelerated if self.args["module"] == "generic" else G.gjk_nesterov_accelerated_primitives
+        res = f(a, b, upper_bound=-1e300)
+        return [res[1], int(res[3])]
+
+    def check(self, cx, inp, out, ob):
+        dist, iters = out
+        spec = ("sphere", "capsule", "box", "ellipsoid", "cylinder")
+        both_special = self.SA.type in spec and self.SB.type in spec
+        RA, RB, tA, tB = inp["RA"], inp["RB"], inp["tA"], inp["tB"]
+        # the loop's ray is e_x in collider0's frame if both have specialised supports, else in the world frame
+        if both_special and self.SA.type != "sphere":     # a Sphere's collider2origin() has no rotation
+            D = [RA[0][0], RA[1][0], RA[2][0]]
+        else:
+            D = [1.0, 0.0, 0.0]
+        mD = [-x for x in D]
+        hA = DOT(tA, mD) + SH.support_value(self.SA, SH.matvec(SH.transpose(RA), mD))
+        hB = DOT(tB, D) + SH.support_value(self.SB, SH.matvec(SH.transpose(RB), D))
+        want = -(hA + hB)
+        # box / cylinder specialised supports are inflated by 1e-8 / 1e-5 relative on purpose
+        tol = 1e-3 * self.L
+        ob.require("single_support_evaluation", exact=(iters == 0))
+        ob.require("first_bound_is_support_bound", exact=(dist == want), tol=close(dist, want, tol))
